@@ -1,4 +1,67 @@
-import StrumModel
+import StrumProofs.C01
+/-
+C18 — a custom parse error is the user's function applied to the exact rejected input.
+-/
 namespace Strum
-theorem c18_placeholder : True := trivial
+
+/-- **Rejected input ⇒ `Err(f(s))` with `f` called exactly once, on the caller's `s` itself.** -/
+theorem custom_err (d : EnumDef) (hphf : d.usePhf = false) (p : FromStrImpl) (hg : genFromStr d = .ok p)
+    (hc : d.customErr = true) (hnd : d.defaults = []) (s : Bytes)
+    (hrej : ∀ v ∈ d.candidates, accepts d v s = false) :
+    parse d s = .ok (.errCustom s) ∧ (ParseOut.errCustom s).callLog = [s] := by
+  refine ⟨?_, rfl⟩
+  rw [parse_other d hphf p hg s hrej]
+  rcases fall_spec d hphf p hg with ⟨_, hf⟩ | ⟨v, hd, _, _⟩
+  · rw [hf, hc]; rfl
+  · rw [hnd] at hd; cases hd
+
+/-- **Accepted input ⇒ `f` is not invoked.** -/
+theorem no_call_on_success (d : EnumDef) (hphf : d.usePhf = false) (p : FromStrImpl)
+    (hg : genFromStr d = .ok p) (s : Bytes) (v : Variant) (hv : v ∈ d.candidates)
+    (ha : accepts d v s = true) (out : ParseOut) (h : parse d s = .ok out) : out.callLog = [] := by
+  rw [parse_first_match d hphf p hg s] at h
+  cases hc : d.candidates.find? (fun v => accepts d v s) with
+  | none =>
+    have := List.find?_eq_none.1 hc v hv
+    simp [ha] at this
+  | some w =>
+    rw [hc] at h
+    simp only [Except.ok.injEq] at h
+    rw [← h]; rfl
+
+/-- **Without the attributes the error is always `ParseError::VariantNotFound`.** -/
+theorem std_err (d : EnumDef) (hphf : d.usePhf = false) (p : FromStrImpl) (hg : genFromStr d = .ok p)
+    (hc : d.customErr = false) (hnd : d.defaults = []) (s : Bytes)
+    (hrej : ∀ v ∈ d.candidates, accepts d v s = false) : parse d s = .ok .errStd := by
+  rw [parse_other d hphf p hg s hrej]
+  rcases fall_spec d hphf p hg with ⟨_, hf⟩ | ⟨v, hd, _, _⟩
+  · rw [hf, hc]; rfl
+  · rw [hnd] at hd; cases hd
+
+/-- the error is never the custom one unless the attributes are present -/
+theorem custom_only_if_declared (d : EnumDef) (hphf : d.usePhf = false) (p : FromStrImpl)
+    (hg : genFromStr d = .ok p) (s a : Bytes) (h : parse d s = .ok (.errCustom a)) :
+    d.customErr = true ∧ a = s := by
+  have := ((parse_err_iff d hphf p hg s).2 a).1 h
+  exact ⟨this.2.2.1, this.2.2.2⟩
+
+/-- **`FromStr::Err` / `TryFrom::Error`**: the declared type, unless there is a default variant
+    (then parsing cannot fail and the macro reverts to `strum::ParseError`). -/
+theorem err_types (d : EnumDef) (hphf : d.usePhf = false) (p : FromStrImpl) (hg : genFromStr d = .ok p) :
+    p.errTy = if d.customErr = true ∧ d.defaults = [] then .custom else .strumParseError := by
+  rw [genFromStr_nophf d hphf] at hg
+  split at hg
+  · next h0 => cases hg; cases d.customErr <;> simp [h0]
+  · next v h1 =>
+    split at hg
+    · cases hg; simp [h1]
+    · cases hg
+  · cases hg
+
+/-! non-vacuity -/
+def exampleErrEnum : EnumDef :=
+  { customErr := true, ci := true, variants := [{ ident := [65] }, { ident := [66], ci := some false }] }
+example : parse exampleErrEnum [98] = .ok (.errCustom [98]) := by rfl
+example : parse exampleErrEnum [97] = .ok (.ok [65] []) := by rfl
+
 end Strum
